@@ -63,7 +63,8 @@ S0 == [ mem    |-> <<>>,                       \* Seq([k, v, loc, age]) FIFO ord
         hold   |-> FALSE,                      \* flush switch
         gate   |-> FALSE,                      \* device writes held
         active |-> TRUE,
-        stuck  |-> FALSE,                      \* close() was called with device writes held: it cannot return (terminal)
+        stuck  |-> FALSE,
+        prob   |-> FALSE,                      \* every block is marked for imminent reclaim (probation): disk hits come back Old                      \* close() was called with device writes held: it cannot return (terminal)
         truth  |-> [k \in Keys |-> 0],
         loc    |-> [k \in Keys |-> "none"],    \* placement advice of the version that is truth[k]
         nv     |-> 0,
@@ -186,7 +187,9 @@ GetStep(T, k) ==
                    IF KeyLoc[k] = "ondisk"
                    THEN [T |-> IF Policy = "woe" THEN Enqueue(T, k, l[2], "fresh") ELSE T, res |-> l[2], src |-> l[1]]
                    ELSE [T |-> MemInsert(T, k, l[2], KeyLoc[k], "fresh"), res |-> l[2], src |-> l[1]]
-              ELSE [T |-> MemInsert(T, k, l[2], "default", "young"), res |-> l[2], src |-> l[1]]
+              \* loaded from disk: Young (not written again on eviction) unless its block is about to be
+              \* reclaimed: Old (written again, so that it survives the reclaim)
+              ELSE [T |-> MemInsert(T, k, l[2], "default", IF T.prob THEN "old" ELSE "young"), res |-> l[2], src |-> l[1]]
 
 -------------------------------------------------------------------------------
 (* Actions (driver operations); every action ends with the flusher pumping   *)
@@ -305,6 +308,13 @@ Clear ==
        S' = [T2 EXCEPT !.index = [h \in HashVals |-> NoIdx], !.disk = {}, !.shed = {}, !.late = {},
                        !.ghost = T2.wsince, !.revived = {}]
     /\ out' = [op |-> [a |-> "clear"], res |-> 0]
+
+\* the eviction picker marks blocks for imminent reclaim (forced through the guarded hook
+\* Store::verif_mark_probation: all blocks at once)
+MarkProbation ==
+    /\ S.active /\ ~S.prob
+    /\ S' = Pump([Begin(S) EXCEPT !.prob = TRUE])
+    /\ out' = [op |-> [a |-> "probation"], res |-> 0]
 
 EvictAll ==
     /\ S.active
